@@ -9,7 +9,7 @@ pub fn def() -> PropDef {
         builds: BOTH,
         rule: "round trip: every paragraph of 1..=k words from {a,bb,ccc,e-acute,CJK,x-y,d.,a word wrapped in SGR sequences,a word containing a TAB} x widths 0..=12 x 64 ordered indent pairs over 8 prefix-character indents x algorithms x LF/CRLF x with/without trailing ending (ASCII separator, no hyphenation, break_words off); structural: every string over {SP,#,L,NL,CR,E2,HY,/} up to length N; non-trivial = a filled form with >= 2 lines (round trip) / an input with >= 2 non-empty lines (structural)",
         assumptions: BASE_ASSUMPTIONS,
-        floor: |t| t.pick(100_000, 1_000_000),
+        floor: |t| t.pick(100_000, 300_000),
         run,
     }
 }
